@@ -17,7 +17,7 @@ from .. import monitors as M
 from .. import world
 from ..core import Result
 from ..ref import dense as D
-from ..ref.discrete import eval_discrete, RefError, pred_value
+from ..ref.discrete import pred_sat, eval_discrete, RefError, pred_value
 from . import common
 
 ID = 'C07'
@@ -35,7 +35,7 @@ ASSUMPTIONS = ['RefBool = Kleene evaluation of the reference evaluators over {-1
 REAL = common.REAL_ALL
 STUBS = common.STUBS_ALL
 ENVELOPE_RULES = ['memory-past-above-delayed (F08), narrowed: only a past operator with UNBOUNDED memory (once, historically, since) above a sub-formula with horizon > 0 is excluded; with bounded memory m (prev/s_prev/rise/fall: 1, bounded operators: their upper bound, summed along nesting) the comparison starts m updates after the horizon (common.warmup_extra)']
-PROBES = ['pastified', 'positive_verdict', 'negative_verdict', 'zero_robustness_no_claim', 'perturbation_clause', 'nested_not_or_implies',
+PROBES = ['interface_aware_semantics', 'pastified', 'positive_verdict', 'negative_verdict', 'zero_robustness_no_claim', 'perturbation_clause', 'nested_not_or_implies',
           'dense_time', 'online', 'modular_shared_delays', 'same_numerals_different_unit']
 INF = float('inf')
 
@@ -104,6 +104,9 @@ def gen(rng, tier):
     reparse = 'out = ((%s) >= (%s));' % (rng.choice(vars_), sg.fmt_num(rng.choice([0.75, 2.5, 0.0, 1.0]))) if rng.random() < 0.12 else None
     sc = {'reparse': reparse, 'explicit': explicit, 'kind': kind, 'mode': mode, 'vars': vars_, 'ast': ast, 'pvc': pvc, 'pastify': pastify, 'modular': modular,
           'noise_seeds': [[rng.uniform(-1, 1) for _ in range(40)] for _ in range(3)]}
+    if kind in ('dt', 'ct') and not explicit and rng.random() < 0.3:
+        sc['iastl'] = {'sem': rng.choice(['output-robustness', 'input-robustness']),
+                       'io': dict((v, rng.choice(['input', 'output'])) for v in vars_ if rng.random() < 0.8)}
     if dense:
         sc['signals'] = dict((v, world.gen_dense_signal(rng, rng.randint(1, 6), start_q=0, max_gap_q=4)[0]) for v in vars_)
         sc['nbatches'] = rng.randint(1, 3)
@@ -127,8 +130,10 @@ def envelope(sc):
 
 
 def sign_hook_scalar(node, l, r):
-    v = pred_value(node[1], l, r)
-    return 1.0 if v > 0 else (-1.0 if v < 0 else 0.0)
+    # Boolean semantics of a predicate: strict and non-strict comparisons differ exactly at equality (where the standard
+    # robustness is 0 and claims nothing, but an interface-aware monitor reports +-inf by the truth of the predicate)
+    pred_value(node[1], l, r)          # (raises RefError for undefined operands, like the quantitative reference)
+    return 1.0 if pred_sat(node[1], l, r) else -1.0
 
 
 def sign_hook_list(node, xs, ys):
@@ -141,6 +146,11 @@ def sgn(v):
 
 def desc_of(sc):
     d = _desc_of(sc)
+    if sc.get('iastl') and sc['kind'] in ('dt', 'ct'):
+        # interface-aware robustness (only the combined classes take a semantics): an insensitive predicate reports +-inf by its
+        # truth, so the sign clause must hold as it stands (the magnitude clause does not: +-inf says nothing about distance)
+        d['semantics'] = sc['iastl']['sem']
+        d['io'] = dict(sc['iastl']['io'])
     if sc.get('reparse'):
         # the object was parsed (and is re-parsed) in a parameter sweep: another threshold first
         d['prior'] = {'spec': sc['reparse']}
@@ -307,7 +317,9 @@ def run(sc):
         if rho not in (0, INF, -INF):
             checked.append((t, rho))
     # oracle 2: bounded sensor noise
-    if sc.get('pvc') and checked:
+    if sc.get('iastl') and sc['kind'] in ('dt', 'ct'):
+        r.probes['interface_aware_semantics'] += 1
+    elif sc.get('pvc') and checked:
         r.probes['perturbation_clause'] += 1
         pick = checked[:2] + checked[-2:] if len(checked) > 4 else checked
         for t, rho in pick:
